@@ -22,10 +22,9 @@ func run(src string, vars map[string]cty.Value) {
 }
 
 func main() {
-	for _, t := range []string{"a\r${x}", "${x}\r${x}", "\r%{if true}y%{endif}", "\r$$${", "\rabc\n$$${", "$\rX", "a$\r${x}", "\r\r", "a\r", "\r\n${x}"} {
-		e, d := hclsyntax.ParseTemplate([]byte(t), "p.tmpl", hcl.InitialPos)
-		if d.HasErrors() { fmt.Printf("%q parse: %v\n", t, d); continue }
-		v, dd := e.Value(&hcl.EvalContext{Variables: map[string]cty.Value{"x": cty.StringVal("X")}})
-		fmt.Printf("%-28q => %#v %v\n", t, v, dd)
+	for _, st := range []cty.Value{cty.UnknownVal(cty.Set(cty.String)), cty.NullVal(cty.Set(cty.String))} {
+		vars := map[string]cty.Value{"st": st}
+		run("st.*.a", vars)
+		run("false ? st.*.a : []", vars)
 	}
 }
